@@ -104,7 +104,7 @@ def _gen_cases(tier, seed):
     yield dict(i=i, kind="append", fmt="h5", cell=False, time=False, parts=[1], parts2=[3])
     i += 1
     # ragged writes
-    nr = 700 if tier == "quick" else 6000
+    nr = 2000 if tier == "quick" else 6000
     bads = ["atoms+1", "atoms-1", "cell-toggle", "time-toggle"]
     for j in range(nr):
         rng = common.rng_for("C19r", seed, j)
@@ -122,7 +122,7 @@ def _gen_cases(tier, seed):
     for fmt in CRASH:
         for cell in (True, False):
             for pname, parts in pats.items():
-                kills = range(1, 6) if tier == "thorough" else [1 + (seed + i) % 5]
+                kills = range(1, 6) if tier == "thorough" else sorted({1 + (seed + i) % 5, 1 + (seed + i + 2) % 5})
                 for k in kills:
                     yield dict(i=i, kind="crash", fmt=fmt, cell=cell, time=fmt in ("h5", "nc", "xtc"), parts=parts, pattern=pname, kill_at=k)
                     i += 1
